@@ -78,7 +78,10 @@ def contains(exc, target, seen=None) -> bool:
         return True
     if isinstance(exc, BaseExceptionGroup) and any(contains(e, target, seen) for e in exc.exceptions):
         return True
-    return contains(exc.__cause__, target, seen) or contains(exc.__context__, target, seen)
+    if contains(exc.__cause__, target, seen):
+        return True
+    # an implicit context that was explicitly suppressed (`raise ... from None`) is hidden from every report
+    return (not exc.__suppress_context__) and contains(exc.__context__, target, seen)
 
 
 def judge(case, run, res, out: Outcome, inject):
@@ -190,18 +193,20 @@ def judge(case, run, res, out: Outcome, inject):
     cancelled_caller = inject is not None and isinstance(caller_exc, asyncio.CancelledError)
     if cancelled_caller and exit_errors:
         # double fault: a cancellation and a cleanup error compete; C07 demands that the cancellation survives, so
-        # which of the two the caller sees is not specified by either statement
+        # WHICH of the two the caller sees is not specified by either statement - but the cleanup error may not vanish
+        # without a trace: it has to be reachable from what the caller sees (group leaf, __cause__ or __context__)
         out.unspecified.append("cleanup-error-under-cancellation")
-        exit_errors_judged = []
-    else:
-        exit_errors_judged = exit_errors
-    for x in exit_errors_judged:
+    # (a cancellation that lands while the disposables are still ENTERING, or after the body's last instruction, is
+    # outside "however the body ends": what happens to cleanup errors then is not judged)
+    judged = exit_errors if (not cancelled_caller or (body_start and not exit_phase_cancel)) else []
+    for x in judged:
         if not contains(caller_exc, x):
             k = "single" if len(exit_errors) == 1 else "multiple"
+            under = "/under-cancellation" if cancelled_caller else ""
             out.violate(
                 "surface",
-                f"C08.surface/cleanup-error-vanished/{k}/{tag}",
-                f"exit raised {x!r}; caller saw {caller_exc!r}; inject={inject}",
+                f"C08.surface/cleanup-error-vanished/{k}/{tag}{under}",
+                f"exit raised {x!r}; caller saw {caller_exc!r} (context {getattr(caller_exc, '__context__', None)!r}); inject={inject}",
             )
     # an enter error must reach the caller too (the body never ran; nothing else can be reported)
     for j in range(n):
